@@ -149,9 +149,14 @@ def as_bool(v):
         return z3.And(z3.Not(v.is_none()), v.val() != 0)
     if isinstance(v, VTuple):
         return z3.BoolVal(len(v.items) > 0)
-    if isinstance(v, VSet):
+    if isinstance(v, (VSet, VDict)):
         k = z3.Const(fresh_name("w"), v.key.z3sort())
-        return z3.Exists([k], v.dom[k])
+        nonempty = z3.Exists([k], v.dom[k])
+        if getattr(v, "none", None) is not None:
+            return z3.And(z3.Not(v.none), nonempty)
+        return nonempty
+    if isinstance(v, VModel) and hasattr(v, "sym_truth"):
+        return v.sym_truth(None, None)
     raise Unsupported("truthiness of %r" % (v,))
 
 
@@ -593,12 +598,12 @@ class Engine:
             # contract (partial correctness on the non-raising executions); recorded in the evidence
             self.assumptions.add("%s: executions failing `assert %s` raise AssertionError there and are outside the contract" % (self.contract.qualname, ast.unparse(node.test)))
             try:
-                st.assume(as_bool(self.eval(node.test, st)))
+                st.assume(self.truth(node.test, st))
             except Unsupported:
                 pass
             yield st, (Flow.NEXT,)
             return
-        c = as_bool(self.eval(node.test, st))
+        c = self.truth(node.test, st)
         self.oblige(st, "assert", c, "L%d" % k)
         yield st, (Flow.NEXT,)
 
@@ -757,7 +762,7 @@ class Engine:
         raise Unsupported("item store on %r" % (base,))
 
     def stmt_If(self, node, st):
-        c = as_bool(self.eval(node.test, st))
+        c = self.truth(node.test, st)
         c = z3.simplify(c)
         if z3.is_true(c):
             yield from self.exec_block(node.body, st)
@@ -793,6 +798,7 @@ class Engine:
         return loops
 
     def loop_ordinal(self, node):
+        node = getattr(node, "_else_of", node)
         for i, l in enumerate(self.all_loops()):
             if l is node:
                 return i
@@ -964,7 +970,7 @@ class Engine:
             raise Unsupported("while-else")
         o, spec = self.loop_spec(node)
         yield from self.run_loop(st, o, spec, node.body,
-                                 guard=lambda s: as_bool(self.eval(node.test, s)),
+                                 guard=lambda s: self.truth(node.test, s),
                                  pre_body=None, post_body=None, extra_havoc=(), auto_variant=None)
 
     def run_loop(self, st, o, spec, body, guard, pre_body, post_body, extra_havoc, auto_variant, implicit_inv=None):
@@ -984,7 +990,7 @@ class Engine:
                     raise Unsupported("concrete run forked")
                 st, flow = outs[0]
                 if flow[0] == Flow.BREAK:
-                    yield st, (Flow.NEXT,)
+                    yield st, (Flow.NEXT, "broke")
                     return
                 if flow[0] not in (Flow.NEXT, Flow.CONTINUE):
                     yield st, flow
@@ -1050,13 +1056,25 @@ class Engine:
                         self.oblige(s1, "variant", z3.And(v0 >= 0, v1 < v0), "L%d" % o)
                 self.paths += 1
             elif flow[0] == Flow.BREAK:
-                yield s1, (Flow.NEXT,)
+                yield s1, (Flow.NEXT, "broke")
             else:
                 yield s1, flow
 
     def stmt_For(self, node, st):
         if node.orelse:
-            raise Unsupported("for-else")
+            # for ... else: the else block runs when the loop ends without `break`.  The loop itself is executed without its else clause; its exits carry a
+            # mark saying whether they came from a break.
+            plain = ast.For(target=node.target, iter=node.iter, body=node.body, orelse=[], type_comment=None)
+            ast.copy_location(plain, node)
+            plain._else_of = node
+            for s1, flow in self.stmt_For(plain, st):
+                if flow == (Flow.NEXT, "broke"):
+                    yield s1, (Flow.NEXT,)
+                elif flow[0] == Flow.NEXT:
+                    yield from self.exec_block(node.orelse, s1)
+                else:
+                    yield s1, flow
+            return
         it = self.eval(node.iter, st)
         if isinstance(it, VTuple):
             # a loop over a fixed-length tuple/constant collection is unrolled: no invariant needed
@@ -1158,7 +1176,7 @@ class Engine:
             if flow[0] in (Flow.NEXT, Flow.CONTINUE):
                 yield from self.unroll(node, items, k + 1, s1)
             elif flow[0] == Flow.BREAK:
-                yield s1, (Flow.NEXT,)
+                yield s1, (Flow.NEXT, "broke")
             else:
                 yield s1, flow
 
@@ -1210,6 +1228,8 @@ class Engine:
             d = it.d
             items = [VTuple([k, from_z3(z3.simplify(d.map[to_z3(k, d.key)]), d.val)]) for k in d.concrete_keys]
             return z3.IntVal(len(items)), (lambda j: items[z3.simplify(j).as_long()])
+        if isinstance(it, VDict):
+            return self.iter_protocol(VSet(it.key, it.dom), st)       # iterating a dict iterates its keys
         if isinstance(it, VDictItems):
             d = it.d
             n, getter = self.iter_protocol(VSet(d.key, d.dom), st)
@@ -1419,8 +1439,24 @@ class Engine:
                 return z3.simplify(v.arr[0])
         return None
 
+    def truth(self, node, st):
+        """truth value of an expression in a boolean context (if / while / assert / conditional expression tests): for `a and b`, `a or b`, `not a` only the
+        truthiness of the operands matters, whatever their sorts"""
+        if isinstance(node, ast.BoolOp):
+            acc = None
+            for v in node.values:
+                if acc is None:
+                    xb = self.truth(v, st)
+                else:
+                    xb = self.guarded(st, acc if isinstance(node.op, ast.And) else z3.Not(acc), lambda v=v: self.truth(v, st))
+                acc = xb if acc is None else (z3.And(acc, xb) if isinstance(node.op, ast.And) else z3.Or(acc, xb))
+            return acc
+        if isinstance(node, ast.UnaryOp) and isinstance(node.op, ast.Not):
+            return z3.Not(self.truth(node.operand, st))
+        return as_bool(self.eval(node, st))
+
     def expr_IfExp(self, node, st):
-        c = as_bool(self.eval(node.test, st))
+        c = self.truth(node.test, st)
         a = self.guarded(st, c, lambda: self.eval(node.body, st))
         b = self.guarded(st, z3.Not(c), lambda: self.eval(node.orelse, st))
         return self.ite(c, a, b)
@@ -1436,6 +1472,14 @@ class Engine:
         if isinstance(a, VOpt) or isinstance(b, VOpt):
             r = a if isinstance(a, VOpt) else b
             return VOpt(r.sort, z3.If(c, to_z3(self.coerce(a, r.sort, None), r.sort), to_z3(self.coerce(b, r.sort, None), r.sort)))
+        if (a is NONE or b is NONE) and isinstance(b if a is NONE else a, (VList, VDict, VSet)):
+            # `container if cond else None`: the container with a None flag (MAYBE)
+            import copy as _copy
+            v = _copy.copy(b if a is NONE else a)
+            was = getattr(v, "none", None)
+            was = was if was is not None else z3.BoolVal(False)
+            v.none = z3.If(c, z3.BoolVal(True), was) if a is NONE else z3.If(c, was, z3.BoolVal(True))
+            return v
         if a is NONE or b is NONE:
             raise Unsupported("conditional expression mixing None and a value of undeclared sort")
         az, bz = to_z3(a), to_z3(b)
@@ -1599,6 +1643,7 @@ class Engine:
         return res
 
     def compare(self, op, a, b, st):
+        self._cur_state = st
         if isinstance(op, (ast.Is, ast.IsNot)):
             r = self.identical(a, b)
             return r if isinstance(op, ast.Is) else z3.Not(r)
@@ -1688,6 +1733,9 @@ class Engine:
         if a is NONE or b is NONE:
             return self.identical(a, b)
         if isinstance(a, VRef) and isinstance(b, VRef):
+            m = self.reg.object_models.get(a.cls) if a.cls == b.cls else None
+            if m is not None and hasattr(m, "equal") and getattr(self, "_cur_state", None) is not None:
+                return m.equal(self, self._cur_state, a, b)      # a class that defines __eq__ (modelled in the contract file)
             return a.ref == b.ref   # default object equality is identity
         if isinstance(a, VTuple) and isinstance(b, VTuple):
             if len(a.items) != len(b.items):
